@@ -31,11 +31,11 @@ THEOREMS = ["dtype_table_is_hardware_rule", "dtype_sound", "read_partition", "wr
             "fill_exact"]
 
 RULE = ("cases = (operation in read/write/fill/link read/link write/struct field/vcpu field, chip, core, address of every "
-        "alignment, length 0 .. 5 buffers +- 3, buffer size in {4,8,12,16,64,128,256,260,384,508,512}, window 1-8, network fault "
+        "alignment, length 0 .. 5 buffers +- 3, buffer size in {4,5,6,7,8,12,16,64,66,128,130,250,255,256,260,384,508,512}, window 1-8, network fault "
         "script); non-trivial = more than one command was needed or a datagram was lost/duplicated/delayed; distinct = "
         "distinct canonical JSON of the case")
 
-BUFS = [4, 8, 12, 16, 64, 128, 256, 256, 256, 260, 384, 508, 512]
+BUFS = [4, 8, 12, 16, 64, 128, 256, 256, 256, 260, 384, 508, 512, 5, 6, 7, 66, 130, 250, 255]
 
 
 def gen_script(rng, n, timeout):
@@ -370,7 +370,7 @@ def eval_cases(ctx, cases, table):
 def run(ctx):
     from harness import common
     ctx.extra["rule"] = RULE
-    ctx.assumptions += ["buffer size >= 4 and a multiple of 4 (what SC&MP reports)",
+    ctx.assumptions += ["buffer size >= 4 (link transfers need one whole word); sizes that are not multiples of 4 are included",
                         "simulated machine memory semantics = Lean execWrite/execFill/readMem"]
     table = independent_struct_table(common.REPO)
     n = ctx.scale(1500, 40000)
